@@ -155,9 +155,16 @@ func runRtsp(c RtspCase) *pbt.Violation {
 		describeAt = c.JoinAt
 	}
 	vshInForce := -1
+	// a DESCRIBE that lal holds back is answered at an instant between the request and the moment the model knows the
+	// SDP to exist: every sequence header in force during that window is acceptable
+	var vshAlso []int
+	inWindow := false
 	send := func(from, to int) *pbt.Violation {
 		for k := from; k < to; k++ {
 			if c.Items[k].Kind == "vsh" {
+				if inWindow && vshInForce >= 0 {
+					vshAlso = append(vshAlso, vshInForce)
+				}
 				vshInForce = k
 			}
 			if err := p.SendItem(c.Items[k], c.Codecs, 0); err != nil {
@@ -183,6 +190,7 @@ func runRtsp(c RtspCase) *pbt.Violation {
 		}
 		if err == nil {
 			conn.WaitPeerIdle(lalclient.IdleTimeout)
+			inWindow = true
 			if v := send(describeAt, join); v != nil {
 				return v
 			}
@@ -226,10 +234,16 @@ func runRtsp(c RtspCase) *pbt.Violation {
 		}
 		if vshInForce >= 0 {
 			vps, sps, pps := gen.ParamSets(c.Codecs.Video, c.Items[vshInForce].Variant)
-			ok := len(vt.SPS) > 0 && len(vt.PPS) > 0 && bytes.Equal(vt.SPS[len(vt.SPS)-1], sps) && bytes.Equal(vt.PPS[len(vt.PPS)-1], pps)
-			if c.Codecs.Video == "hevc" {
-				ok = ok && len(vt.VPS) > 0 && bytes.Equal(vt.VPS[len(vt.VPS)-1], vps)
+			ok := false
+			for _, vi := range append([]int{vshInForce}, vshAlso...) {
+				vps, sps, pps := gen.ParamSets(c.Codecs.Video, c.Items[vi].Variant)
+				ok1 := len(vt.SPS) > 0 && len(vt.PPS) > 0 && bytes.Equal(vt.SPS[len(vt.SPS)-1], sps) && bytes.Equal(vt.PPS[len(vt.PPS)-1], pps)
+				if c.Codecs.Video == "hevc" {
+					ok1 = ok1 && len(vt.VPS) > 0 && bytes.Equal(vt.VPS[len(vt.VPS)-1], vps)
+				}
+				ok = ok || ok1
 			}
+			_ = vps
 			if !ok {
 				return pbt.V("R1/sdp-stale-parameter-sets", "SDP answered after the sequence header of item %d (variant %d) carries sps=%x pps=%x, want sps=%x pps=%x", vshInForce, c.Items[vshInForce].Variant, vt.SPS, vt.PPS, sps, pps)
 			}
